@@ -44,7 +44,76 @@ PID = "C22"
 KNOWN_LINEAR = "C22:linear-form-mixedelement-returns-kxk-duplicated-rows"
 
 
+def facet_pre(*specs):
+    """Initial nodes of an interior facet universe: 'x+' / 'x-' (the restrictions of node x), 'x+-' (x('+') - x('-'),
+    the jump of x) and 'x++' (x('+') + x('-'), twice the average of x).  Returns (pre, names): the `pre` list of the
+    universe and the name ('p1', 'p2', ...) of the node of every spec and of every restriction built on the way."""
+    pre, names = [], {}
+
+    def node(label, op, operands):
+        if label not in names:
+            pre.append((op, tuple(operands), ()))
+            names[label] = f"p{len(pre)}"
+        return names[label]
+
+    for spec in specs:
+        x = spec.rstrip("+-")
+        kind = spec[len(x):]
+        if kind in ("+", "-"):
+            node(spec, "rp" if kind == "+" else "rm", (x,))
+        elif kind in ("+-", "++"):
+            node(spec, "sub" if kind == "+-" else "add", (node(x + "+", "rp", (x,)), node(x + "-", "rm", (x,))))
+        else:
+            raise MachineryError(f"facet_pre: {spec}")
+    return pre, names
+
+
+def facet_universes(tier):
+    """Interior facet universes (sides = 2): restrictions and dS integrals."""
+    q = tier == "quick"
+    f, W2 = ("f", ()), ("W", (2,))
+    EB = ("extract_blocks",)
+    noacts = ("two", "w_u", "w_v", "w_u0", "w_u1", "w_u2", "w_v0", "w_v1", "w_v2")
+    deep_ops = {"add", "sub", "mul", "neg", "inner", "dot", "index", "conj", "list", "rp", "rm"}
+    out = []
+
+    def exhaustive(name, mixed, vsub, usub, usable, ops, **kw):
+        # every term of <= 2 constructor calls over restricted sub-functions / coefficients, jumps and sums of the two traces
+        pre, names = facet_pre(*usable)
+        raw = ("v", "u", "f") + tuple(f"{s}{m}{k}" for s in "vu" for m in ("", "_") for k in range(3)) + tuple(f"{s}[{k}]" for s in "vu" for k in range(3))
+        hidden = tuple(p for label, p in names.items() if label not in usable)
+        out.append(Uni(name, mixed, vsub, usub, [f], ops, 2, EB, exclude=noacts + raw + hidden, pre=pre, sides=2, **kw))
+
+    # MixedFunctionSpace: the jump of the first test sub-function, one trace of the second; the sum of the traces of the
+    # second trial sub-function, one trace of the first; both traces of the coefficient
+    exhaustive("ms-dS", "space", [(), ()], [(), ()], ("v0+-", "v1-", "u0+", "u1++", "f+", "f-"), {"sub", "mul"})
+    if not q:
+        exhaustive("me-dS", "element", [(), ()], [(), ()], ("v_0+-", "v_1-", "u_0+", "u_1++", "f+", "f-"), {"sub", "mul"})
+        exhaustive("me-dS-rect", "element", [(), ()], [(), (), ()], ("v_0++", "v_1+", "v_1-", "u_0-", "u_1+-", "u_2+", "f-"), {"add", "mul"})
+        exhaustive("ms-dS-lin", "space", [(), (), ()], None, ("v0+-", "v1++", "v2+", "v2-", "f+", "f-"), {"add", "sub", "mul"})
+    # sampled programs: the restrictions are constructors (of sub-functions, of whole mixed arguments, of compound
+    # expressions), next to the restricted sub-functions; cell, exterior facet and interior facet integrals in one form
+    def pieces(*names):
+        return [n + sd for n in names for sd in ("+", "-")]
+
+    kp = [(5, 6), (1, 5), (5, 2)]
+    n1, n2, d = (260, 200, 5) if q else (2500, 2500, 6)
+    pre, _ = facet_pre(*pieces(*("v_0", "v_1", "u_0", "u_1", "f", "W")))
+    out.append(Uni("sample-me-dS" if q else "deep-me-dS", "element", [(), (2,)], [(), (2,)], [f, W2], deep_ops, 0, EB, keypairs=kp, exclude=noacts, pre=pre, sides=2, simulate=n1, depth=d))
+    pre, _ = facet_pre(*pieces(*("v0", "v1", "u0", "u1", "f", "W")))
+    out.append(Uni("sample-ms-dS" if q else "deep-ms-dS", "space", [(), (2,)], [(2,), ()], [f, W2], deep_ops, 0, EB, keypairs=kp, exclude=noacts, pre=pre, sides=2, simulate=n2, depth=d))
+    if not q:
+        pre, _ = facet_pre(*pieces(*("v_0", "v_1", "v_2", "u_0", "u_1", "f", "X")))
+        out.append(Uni("deep-me-dS-refsize", "element", [(), (2, 2), (2,)], [(3,), ()], [f, W2, ("X", (3,)), ("G", (2, 2))], deep_ops, 0, EB, keypairs=kp, vkinds=["P", "sym", "P"], ukinds=["curl", "P"], gdim=3,
+                       exclude=noacts, pre=pre, sides=2, simulate=700, depth=5))
+    return out
+
+
 def universes(tier):
+    return plain_universes(tier) + facet_universes(tier)
+
+
+def plain_universes(tier):
     q = tier == "quick"
     f, W2, X3, G = ("f", ()), ("W", (2,)), ("X", (3,)), ("G", (2, 2))
     EB = ("extract_blocks",)
@@ -151,13 +220,17 @@ def block_slots(w, i, j, replaced=True):
         gj = list(range(1, uni.nu + 1)) if j is not None else []
         return Slots(w.vslots, w.uslots if j is not None else []), gi, gj
     if uni.mixed == "element":
-        rows = [(ufl.Argument(w.subspaces[0][i], 0, None), c) for c in base.comps(uni.vsub[i])]
+        # on an interior facet: the '+' traces of the components, then their '-' traces (the order of part_slots)
+        sides = [(sd,) for sd in base.SIDE_NAMES] if uni.sides == 2 else [()]
+        a = ufl.Argument(w.subspaces[0][i], 0, None)
+        rows = [(a, c) + sd for sd in sides for c in base.comps(uni.vsub[i])]
         if j is None:
             cols = []
         elif uni.uplain:
             cols = list(w.uslots)
         else:
-            cols = [(ufl.Argument(w.subspaces[1][j], 1, None), c) for c in base.comps(uni.usub[j])]
+            b = ufl.Argument(w.subspaces[1][j], 1, None)
+            cols = [(b, c) + sd for sd in sides for c in base.comps(uni.usub[j])]
     else:
         rows = [w.vslots[s - 1] for s in gi]
         cols = [w.uslots[s - 1] for s in gj]
@@ -185,11 +258,11 @@ def sym_pairs(uni):
     """per side, the pairs of (1-based) slots that carry the components (0, 1) / (1, 0) of a symmetric
     tensor sub-function"""
     out = []
-    for subs, kinds in ((uni.vsub, uni.vkinds), (uni.usub or [], uni.ukinds)):
+    for subs, kinds, half in ((uni.vsub, uni.vkinds, uni.nvh), (uni.usub or [], uni.ukinds, uni.nuh)):
         pairs, off = [], 0
         for sh, k in zip(subs, kinds):
             if k == "sym":
-                pairs.append((off + 2, off + 3))  # flat components 1 = (0, 1) and 2 = (1, 0)
+                pairs += [(sd * half + off + 2, sd * half + off + 3) for sd in range(uni.sides)]  # flat components 1 = (0, 1) and 2 = (1, 0), on every side
             off += Uni._size(sh)
         out.append(pairs)
     return out
@@ -260,6 +333,34 @@ def add_keyed(a, b):
     return out
 
 
+def both_traces(uni, rec):
+    """(the form has an interior facet integral, some integrand contains BOTH restrictions x('+') and x('-') of one
+    expression x)"""
+    nodes = [(op, tuple(a)) for op, a, _ in uni.prelude] + [(n["op"], tuple(n["args"])) for n in rec["prog"]]
+    facet = both = False
+    for it in rec["ints"]:
+        if it["key"] not in base.FACET_KEYS:
+            continue
+        facet = True
+        seen, stack, sides = set(), [it["root"]], {}
+        while stack:
+            i = stack.pop()
+            if i in seen or i <= uni.ninit - len(uni.prelude):
+                continue
+            seen.add(i)
+            op, a = nodes[i - (uni.ninit - len(uni.prelude)) - 1]
+            if op in ("rp", "rm"):
+                sides.setdefault(a[0], set()).add(op)
+            stack.extend(a)
+        both = both or any(len(v) == 2 for v in sides.values())
+    return facet, both
+
+
+def facet_sfx(d):
+    """the first difference lies in an interior facet integral"""
+    return ":interior-facet" if d and isinstance(d[0], tuple) and d[0][0] == "interior_facet" else ""
+
+
 def is_empty(x):
     return x is None or (hasattr(x, "empty") and x.empty())
 
@@ -294,7 +395,7 @@ def check_record(w, rec, corrupt=False):
     F, keys = fm["F"], fm["keys"]
     slots = Slots(w.vslots, w.uslots)
     if "Ftab" not in fm:
-        fm["Ftab"] = assemble(F, w.envs, slots)
+        fm["Ftab"] = assemble(F, w.envs, slots, senvs=w.senvs)
     Freal = fm["Ftab"]
     Fpred = by_key(keys, [pred_tab(t) for t in rec["F"]], nenv, nr, nc)
     if corrupt == "input":
@@ -311,6 +412,10 @@ def check_record(w, rec, corrupt=False):
     arity = rec["arity"]
     kind = base.space_kind(uni)
     text = w.text(rec)
+    if uni.sides == 2:
+        facet, both = both_traces(uni, rec)
+        cnt("forms_with_interior_facet_integrals", int(facet))
+        cnt("forms_with_both_traces_of_one_expression_in_an_integrand", int(both))
     rows, cols = rec["shape"]
     lin = "linear" if arity == 1 else "bilinear"
 
@@ -330,7 +435,7 @@ def check_record(w, rec, corrupt=False):
         if is_empty(blk):
             return {}
         try:
-            loc = assemble(blk, w.envs, bs)
+            loc = assemble(blk, w.envs, bs, senvs=w.senvs)
         except ForeignArgument as e:
             viol(f"{PID}:{lin}:{kind}:block-contains-foreign-argument" + sfx(replaced),
                  f"{label} of {text}: block ({i}, {jj}) depends on an argument outside sub-spaces ({i}, {jj}): {e}", label)
@@ -360,10 +465,10 @@ def check_record(w, rec, corrupt=False):
         if d2 is not None:
             d3 = outside_diff(full, want, gi, gj, arity)
             if d3 is not None:
-                viol(f"{PID}:{lin}:{kind}:block-depends-on-another-sub-function" + sfx(replaced),
+                viol(f"{PID}:{lin}:{kind}:block-depends-on-another-sub-function" + facet_sfx(d3) + sfx(replaced),
                      f"{label} of {text}: block ({i}, {jj}) depends on a component of another sub-function at (key, env, row, col, real, required) = {d3}", label)
             else:
-                viol(f"{PID}:{lin}:{kind}:block-is-not-the-restriction" + sfx(replaced),
+                viol(f"{PID}:{lin}:{kind}:block-is-not-the-restriction" + facet_sfx(d2) + sfx(replaced),
                      f"{label} of {text}: block ({i}, {jj}) is not the restriction of the form to sub-spaces ({i}, {jj}) at (key, env, row, col, real, required) = {d2}", label)
         elif d1 is not None:
             findings.append(Finding("conformance", f"{PID}:conformance:block", f"{label} of {text}: block ({i}, {jj}) differs from the model's at {d1}", {"label": label}))
@@ -417,7 +522,7 @@ def check_record(w, rec, corrupt=False):
             cnt("partition_sums")
             d = keyed_diff(on_symmetric_values(total, uni), on_symmetric_values(Freal, uni), nenv, nr, nc)
             if d is not None:
-                viol(f"{PID}:{lin}:{kind}:blocks-do-not-sum-to-the-form" + sfx(replaced),
+                viol(f"{PID}:{lin}:{kind}:blocks-do-not-sum-to-the-form" + facet_sfx(d) + sfx(replaced),
                      f"{label} of {text}: the zero-padded blocks do not sum to the assembled form at (key, env, row, col, sum, form) = {d}", label)
 
     def same_result(A, B):
@@ -538,6 +643,8 @@ def run(ctx, args):
             for fu in futs:
                 fu.result()
     base.run_universes(ctx, __name__, unis, pid=PID)
+    if any(u.sides == 2 for u in unis) and not ctx.cov.get("forms_with_both_traces_of_one_expression_in_an_integrand"):
+        raise MachineryError("vacuous: no form with both restrictions of one expression in an interior facet integrand was judged")
     if any(refsize_universe(u) for u in unis) and not ctx.cov.get("kept_argument_blocks_behind_a_sub_element_with_other_reference_size"):
         raise MachineryError("vacuous: no non-empty replace_argument=False block behind a sub-element whose reference and physical value sizes differ was judged")
 
